@@ -109,9 +109,17 @@ def run_chains(args):
                 return fake_stat_result(st, pth)
             shim.fstat = fstat
             F.os = shim
+            # the starting directory given absolutely, or RELATIVE to a working directory somewhere on the chain
+            # (`.`, `sub/dir`, `..`): the answer is the same
+            spath = dirs[start - 1]
+            old_cwd = real_os.getcwd()
+            if rng.random() < 0.35:
+                cw = dirs[rng.randrange(0, n)]
+                real_os.chdir(cw)
+                spath = os.path.relpath(dirs[start - 1], cw)
             try:
                 try:
-                    res = F.find_top_level_manifest(dirs[start - 1], allow_xdev=sc['allowX'],
+                    res = F.find_top_level_manifest(spath, allow_xdev=sc['allowX'],
                                                     allow_compressed=sc['allowC'])
                     if res is None:
                         obs = 0
@@ -125,6 +133,7 @@ def run_chains(args):
                     obs = -2
             finally:
                 F.os = real_os
+                real_os.chdir(old_cwd)
             recs.append(dict(sc, obs=obs, names=names[:n]))
             shutil.rmtree(root, ignore_errors=True)
     finally:
